@@ -47,6 +47,15 @@ inductive Status
   | panic     -- Go runtime panic (application side only: `make` with a negative size)
   deriving DecidableEq, Repr
 
+/-- how many bytes of the unread region `u` the code takes for T and L of the block in front (`r2` = what
+    is left after both were read): by the REGENERATED fact `blockSizedByReaderPos` either what was read
+    (`rdr.Pos()`, the working tree after repair F-11b) or the shortest forms of the two numbers
+    (`typ.EncodingLength() + len.EncodingLength()`, the pinned tree).  A tree that goes back to the
+    second sizing regenerates the fact, and `hdrBytes_eq` — on which both block lemmas rest — no longer
+    checks. -/
+def hdrBytes (u r2 : Bytes) (typ len : Nat) : Nat :=
+  if Ndn.Gen.C11.blockSizedByReaderPos = 1 then u.length - r2.length else tlLen typ + tlLen len
+
 /-- The inner `for` loop of `readTlvStream` on the unread region `u = recvBuf[tlvOff:recvOff]`:
     delivered frames, the bytes still unread afterwards, and how the loop ended.
     `tlvSize := rdr.Pos() + int(len)`: the block is as long as what `ReadTLNum` consumed of it for
@@ -62,7 +71,7 @@ def parseLoop (u : Bytes) : List Bytes × Bytes × Status :=
     | some (len, r2) =>
       if len > cap then ([], u, .tooBig)         -- can never fit in the receive buffer
       else
-        let sz := (u.length - r2.length) + len   -- rdr.Pos() + int(len)
+        let sz := hdrBytes u r2 typ len + len    -- rdr.Pos() + int(len)
         if u.length ≥ sz then                    -- recvOff-tlvOff >= tlvSize
           let r := parseLoop (u.drop sz)
           (u.take sz :: r.1, r.2.1, r.2.2)
@@ -72,6 +81,9 @@ termination_by u.length
 decreasing_by
   have a := decTL_rest_lt h1
   have b := decTL_rest_lt h2
+  have c : 1 ≤ tlLen typ := by unfold tlLen; repeat' split
+                               all_goals omega
+  have d : 1 ≤ hdrBytes u r2 typ len := by unfold hdrBytes; split <;> omega
   simp only [List.length_drop]
   omega
 
